@@ -3,6 +3,7 @@ import CobyqaVerif.Props.C04
 import CobyqaVerif.Alg.Tcg
 import CobyqaVerif.Alg.TcgImproveFast
 import CobyqaVerif.Alg.Ctcg
+import CobyqaVerif.Alg.CtcgImprove
 import CobyqaVerif.Alg.Ntcg
 import CobyqaVerif.Alg.NtcgImprove
 import CobyqaVerif.Alg.Cauchy
@@ -331,24 +332,42 @@ states are records of functions), which is exponential in the number of passes; 
 evaluated once per pass. -/
 def runCtcgPasses {n m p : ℕ} (P : Cobyqa.Ctcg.CProb n m p Rat) (Q : Cobyqa.Tcg.Params n Rat) (O : Cobyqa.Ctcg.Oracle n m Rat)
     (fuel : ℕ) (stepA gradA sdA : Array Rat) (flA fuA fbA : Array Bool) (residA : Array Rat) (k : ℕ) (reduct : Rat) :
-    Cobyqa.Ctcg.CSt n m Rat :=
+    Cobyqa.Ctcg.CSt n m Rat × Bool :=
   let s : Cobyqa.Ctcg.CSt n m Rat :=
     { step := fun i => stepA[i.val]!, grad := fun i => gradA[i.val]!, sd := fun i => sdA[i.val]!,
       freeL := fun i => flA[i.val]!, freeU := fun i => fuA[i.val]!, freeUb := fun j => fbA[j.val]!,
       resid := fun j => residA[j.val]!, k := k, reduct := reduct }
   match fuel with
-  | 0 => s
+  | 0 => (s, false)
   | fuel' + 1 =>
     if s.k + O.nAct s.freeL s.freeU s.freeUb < n then
       match Cobyqa.Ctcg.citer P Q O s with
       | .inl t => runCtcgPasses P Q O fuel' (Array.ofFn t.step) (Array.ofFn t.grad) (Array.ofFn t.sd) (Array.ofFn t.freeL)
           (Array.ofFn t.freeU) (Array.ofFn t.freeUb) (Array.ofFn t.resid) t.k t.reduct
+      | .inr t => (t, Cobyqa.Ctcg.cBoundary P Q s)
+    else (s, false)
+
+/-- `Alg/CtcgImprove.lean ciloop`, pass by pass on re-tabulated states -/
+def runCiPasses {n m p : ℕ} (P : Cobyqa.Ctcg.CProb n m p Rat) (R : Cobyqa.Tcg.IParams Rat) (O : Cobyqa.Ctcg.Oracle n m Rat)
+    (fuel : ℕ) (stepA gradA : Array Rat) (flA fuA fbA : Array Bool) (residA : Array Rat) (reduct : Rat) : Cobyqa.Ctcg.CSt n m Rat :=
+  let s : Cobyqa.Ctcg.CSt n m Rat :=
+    { step := fun i => stepA[i.val]!, grad := fun i => gradA[i.val]!, sd := fun _ => 0,
+      freeL := fun i => flA[i.val]!, freeU := fun i => fuA[i.val]!, freeUb := fun j => fbA[j.val]!,
+      resid := fun j => residA[j.val]!, k := 0, reduct := reduct }
+  match fuel with
+  | 0 => s
+  | fuel' + 1 =>
+    if O.nAct s.freeL s.freeU s.freeUb < n then
+      match Cobyqa.Ctcg.cipass P R O s with
+      | .inl t => runCiPasses P R O fuel' (Array.ofFn t.step) (Array.ofFn t.grad) (Array.ofFn t.freeL) (Array.ofFn t.freeU)
+          (Array.ofFn t.freeUb) (Array.ofFn t.resid) t.reduct
       | .inr t => t
     else s
 
-/-- `ctcg n m p fuel | g ; H ; xl ; xu ; aub ; bub ; aeq ; delta`: the first phase of
-`constrained_tangential_byrd_omojokun` (Alg/Ctcg.lean `ctcg`) with the checked exact projection -/
-def doCtcg (n m p fuel : ℕ) (parts : List String) : String :=
+/-- `ctcg n m p fuel fuel2 improve | g ; H ; xl ; xu ; aub ; bub ; aeq ; delta`: `constrained_tangential_byrd_omojokun`
+(Alg/CtcgImprove.lean `cfull`: first phase, and with `improve = 1` the second one, the rescaling and the safeguard) with the
+checked exact projection -/
+def doCtcg (n m p fuel fuel2 : ℕ) (imp : Bool) (parts : List String) : String :=
   match parts with
   | [g, H, lo, hi, A, b, E, d] =>
     match ratsOf g, ratsOf H, optsOf lo, optsOf hi, ratsOf A, ratsOf b, ratsOf E, ratsOf d with
@@ -365,9 +384,21 @@ def doCtcg (n m p fuel : ℕ) (parts : List String) : String :=
       let O : Cobyqa.Ctcg.Oracle n m Rat :=
         { proj := Cobyqa.Ctcg.checkedProj P (proposeProj P.aub P.aeq), nAct := rankOf P.aub P.aeq }
       let s0 := Cobyqa.Ctcg.cinit P O
-      let st := (runCtcgPasses P Q O fuel (Array.ofFn s0.step) (Array.ofFn s0.grad) (Array.ofFn s0.sd) (Array.ofFn s0.freeL)
-        (Array.ofFn s0.freeU) (Array.ofFn s0.freeUb) (Array.ofFn s0.resid) s0.k s0.reduct).step
-      "ok " ++ " ".intercalate ((listFin n).map fun i => showRat (st i))
+      let r := runCtcgPasses P Q O fuel (Array.ofFn s0.step) (Array.ofFn s0.grad) (Array.ofFn s0.sd) (Array.ofFn s0.freeL)
+        (Array.ofFn s0.freeU) (Array.ofFn s0.freeUb) (Array.ofFn s0.resid) s0.k s0.reduct
+      let R : Cobyqa.Tcg.IParams Rat :=
+        { sqrtO := fun x => floatToRat (Float.sqrt (ratToFloat x)), tiny := 0, rtol := 1 / 100000000,
+          nsOf := fun t => (17 * t + 3).floor.toNat }
+      -- `cfull`: second phase, rescaling, safeguard (`cimprove`)
+      let second := imp && r.2 && decide (O.nAct r.1.freeL r.1.freeU r.1.freeUb < n)
+      let st : Fin n → Rat :=
+        if second then
+          let fin := runCiPasses P R O fuel2 (Array.ofFn r.1.step) (Array.ofFn r.1.grad) (Array.ofFn r.1.freeL) (Array.ofFn r.1.freeU)
+            (Array.ofFn r.1.freeUb) (Array.ofFn r.1.resid) r.1.reduct
+          let finS := Cobyqa.Tcg.rescale R P.delta fin.step
+          if Cobyqa.Ctcg.cqval P finS > Cobyqa.Ctcg.cqval P r.1.step then r.1.step else finS
+        else r.1.step
+      (if second then "ok1 " else "ok0 ") ++ " ".intercalate ((listFin n).map fun i => showRat (st i))
     | _, _, _, _, _, _, _, _ => "bad-op"
   | _ => "bad-op"
 
@@ -554,10 +585,10 @@ def handleAlg (line : String) : String :=
       match n.toNat?, m.toNat?, p.toNat?, fuel.toNat?, fuel2.toNat? with
       | some n, some m, some p, some f, some f2 => doNtcg n m p f f2 (imp == "1") parts
       | _, _, _, _, _ => "bad-op"
-    | ["ctcg", n, m, p, fuel] =>
-      match n.toNat?, m.toNat?, p.toNat?, fuel.toNat? with
-      | some n, some m, some p, some f => doCtcg n m p f parts
-      | _, _, _, _ => "bad-op"
+    | ["ctcg", n, m, p, fuel, fuel2, imp] =>
+      match n.toNat?, m.toNat?, p.toNat?, fuel.toNat?, fuel2.toNat? with
+      | some n, some m, some p, some f, some f2 => doCtcg n m p f f2 (imp == "1") parts
+      | _, _, _, _, _ => "bad-op"
     | ["tcg2", n, fuel, fuel2, imp] =>
       match n.toNat?, fuel.toNat?, fuel2.toNat? with
       | some n, some f, some f2 => doTcg2 n f f2 (imp == "1") parts
